@@ -151,6 +151,16 @@ fn main() {
                 }
             }
         }
+        "grind-pow" => {
+            // swsim grind-pow <n_bits> <digest-hex> [threads]: prints one JSON line for pow_solutions.json
+            let n_bits: u8 = args.get(2).and_then(|s| s.parse().ok()).unwrap_or_else(|| usage());
+            let digest = starknet_crypto::Felt::from_hex(args.get(3).map(|s| s.as_str()).unwrap_or("0x1")).unwrap_or_else(|_| usage());
+            let threads: u64 = args.get(4).and_then(|s| s.parse().ok()).unwrap_or(16);
+            let t0 = std::time::Instant::now();
+            let nonce = models::pow_grind_parallel(&digest.to_bytes_be(), n_bits, threads);
+            assert!(models::pow_valid(&digest.to_bytes_be(), n_bits, nonce));
+            println!("{{\"hash\": \"{}\", \"digest\": \"{:#x}\", \"n_bits\": {n_bits}, \"nonce\": {nonce}, \"grind_seconds\": {}}}", models::pow_hash_kind(), digest, t0.elapsed().as_secs());
+        }
         "selftest-models" => {
             let mut ctx = Ctx {
                 property: "SELFTEST".into(),
